@@ -22,7 +22,7 @@ pub static PROP: Prop = Prop {
     rule: "calls of decode_data + decode_str (arbitrary / special-value weighted / latch-first / mutated valid streams; enumerated: all streams of length <= 2, all [latch,a,b], all [241,a,b,c] with a in 192..=207 or boundary values, 256 bytes x ECI 3/11/13/26/27), decode_error on words of exactly the symbol's length (random, within radius, beyond radius, near-miss, zero-syndrome-prefix, prescribed syndrome patterns, single errors incl. last EC codeword of each block), try_from_bits + DataMatrix::decode (arbitrary arrays, width 0, non-dividing widths, all 48 real dimension pairs with random content, valid frames with random / RS-valid interiors so that error correction and data decoding are reached); oracle = the call returns (Ok or Err), any unwind is a violation, in a plain release build and in a build with overflow checks + debug assertions; non-trivial = the call got past input validation (RS: received word is not a codeword; data: stream contains a latch / ECI / upper shift codeword; bitmap: dimensions match a symbol size); distinct by input",
     assumptions: &["decode_error is only called with vectors of exactly the symbol's codeword count (documented precondition)", "termination: 60 s watchdog per call, confirmed in an isolated child process before it is reported"],
     extra: super::no_extra,
-    fuzz_runs: 50000,
+    fuzz_runs: 100000,
 };
 
 // ---------------------------------------------------------------------------------------------
